@@ -18,6 +18,8 @@ import (
 	"syscall"
 	"testing"
 
+	"go.uber.org/zap"
+
 	"go.opentelemetry.io/collector/component"
 	"go.opentelemetry.io/collector/confmap"
 	"go.opentelemetry.io/collector/consumer"
@@ -91,6 +93,7 @@ type genProvider struct {
 	shutdowns int
 	plan      []string // per generation: "ok", "badcfg", "failstart", "failstop"
 	side      map[string]int // Shutdown calls of the other registered providers, by scheme
+	logger    *zap.Logger    // the logger the collector hands to its configuration providers
 }
 
 // sideProvider: "the configuration providers" are ALL registered ones - "aux" is reached only through a ${aux:...}
@@ -165,7 +168,10 @@ func c20body(hist []string, plan []string, res *result, prov **genProvider) func
 			Factories: vfactories, SkipSettingGRPCLogger: true,
 			ConfigProviderSettings: ConfigProviderSettings{ResolverSettings: confmap.ResolverSettings{
 				URIs: []string{"gen:x", "gen:y"},
-				ProviderFactories: []confmap.ProviderFactory{confmap.NewProviderFactory(func(confmap.ProviderSettings) confmap.Provider { return gp }),
+				ProviderFactories: []confmap.ProviderFactory{confmap.NewProviderFactory(func(ps confmap.ProviderSettings) confmap.Provider {
+					gp.logger = ps.Logger
+					return gp
+				}),
 					sideF("aux"), sideF("idle")},
 			}},
 		})
@@ -210,6 +216,15 @@ func c20body(hist []string, plan []string, res *result, prov **genProvider) func
 					// the provider goroutine blocks until the resolver accepts the event, or gives up when Run is gone
 					w := gp.watcher
 					vs.GoDaemon("watcher-call", func() { w(&confmap.ChangeEvent{Error: e}) })
+				case "log":
+					// a provider with a goroutine of its own (a watcher, a poller) writes a log line through the logger the
+					// collector gave it - at any moment, also while the run loop swaps the logger's core at a (re)start
+					if gp.logger == nil {
+						continue
+					}
+					ev("event provider-log")
+					lg := gp.logger
+					vs.GoNamed("provider-log", func() { lg.Info("provider heartbeat") })
 				case "hup", "term":
 					sig := os.Signal(syscall.SIGHUP)
 					if h == "term" {
@@ -375,6 +390,8 @@ func TestVerif(t *testing.T) {
 		rec(nil)
 		return hists
 	}
+	// histories with a logging provider goroutine (not part of the general alphabet: it interacts with (re)starts only)
+	logHists := [][]string{{"log"}, {"log", "hup"}, {"hup", "log"}, {"cfg", "log"}}
 	var n, nodes int64
 	completedLevels := 0
 	var done []string
@@ -394,9 +411,15 @@ func TestVerif(t *testing.T) {
 		minLen = 0
 	}
 	hists := histsOf(minLen, maxHist)
+	if li == 0 {
+		hists = append(hists, logHists...)
+	}
 	all := true
-	for _, plan := range plans {
+	for pi, plan := range plans {
 		for _, h := range hists {
+			if len(h) > 0 && (h[0] == "log" || h[len(h)-1] == "log") && pi > 1 {
+				continue // the logging-provider histories: two generation plans (all ok; the second generation fails to start)
+			}
 			n++
 			if !ctx.Mine(n) {
 				continue
